@@ -16,7 +16,7 @@ import (
 // C04: parsing is total, contained and typed.
 
 var c04Decl = &GenCfg{Depth: 3, Fanout: 2, MaxOpts: 4, MaxGroups: 2, NestGroups: 2, Kinds: AllKinds, Pos: true, PosPct: 35, PosReq: true, Ns: true,
-	Req: 10, Choices: true, FlagChoice: true, Defaults: true, OptArg: true, Hidden: true, Desc: true, Initial: true, Bases: true,
+	Req: 10, Choices: true, FlagChoice: true, CbErr: true, Env: true, EnvNs: true, Defaults: true, OptArg: true, Hidden: true, Desc: true, Initial: true, Bases: true,
 	Unquote: true, Aliases: true, SubOpt: 40, NonASCII: true, NsDelims: []string{"-", "::", ""},
 	ParserOpts: []flags.Options{flags.HelpFlag, flags.PassDoubleDash, flags.IgnoreUnknown, flags.PrintErrors, flags.PassAfterNonOption}}
 
@@ -76,15 +76,24 @@ func c04HasTypedPositional(d *Decl) bool {
 	return typed
 }
 
+func c04HasFailingCallback(d *Decl) bool {
+	for _, o := range d.AllOpts() {
+		if o.CbErr {
+			return true
+		}
+	}
+	return false
+}
+
 func c04Oracle(c *ParseCase) string {
 	st := S("C04")
 	wdOnce.Do(watchdogStart)
-	ref := Ref(&RefInput{D: c.D, Args: c.Args})
+	ref := Ref(&RefInput{D: c.D, Args: c.Args, Env: c.Env})
 	var rr *RealResult
 	wdMu.Lock()
 	wdCase = c
 	wdMu.Unlock()
-	stdout, stderr, capErr := CaptureStd(func() { rr = RunReal(c.D, c.Args, nil, &RealCfg{ExecErr: c.execErr(), CmdHandler: c.CmdHandler}) })
+	stdout, stderr, capErr := CaptureStd(func() { rr = RunReal(c.D, c.Args, c.Env, &RealCfg{ExecErr: c.execErr(), CmdHandler: c.CmdHandler}) })
 	wdMu.Lock()
 	wdCase = nil
 	wdMu.Unlock()
@@ -121,7 +130,7 @@ func c04Oracle(c *ParseCase) string {
 			}
 		} else {
 			st.Label("error: foreign")
-			if !c04HasTypedPositional(c.D) && rr.Err != errExecPlain {
+			if !c04HasTypedPositional(c.D) && rr.Err != errExecPlain && !c04HasFailingCallback(c.D) {
 				return fmt.Sprintf("rejection with a non-*flags.Error error %T %q although no positional conversion, callback or handler error is possible here", rr.Err, rr.Err)
 			}
 		}
@@ -205,6 +214,7 @@ func TestC04(t *testing.T) {
 	S("C04").Rule = "declarations (every option type, choices also on flags, positionals, commands, namespaces) x hostile structured argv (junk tokens '', '-', '--', '---x', '-=', '--=v', invalid UTF-8, 5 kB tokens, multi-byte runes in clusters, bad values for every type, unknown options, help) x all 32 sets of {HelpFlag, PassDoubleDash, IgnoreUnknown, PrintErrors, PassAfterNonOption}; oracle: no panic, watchdog 20 s, error type as attributed by R (success expected => success), any non-flags error only where positional conversion can fail, fd-level stdout/stderr: empty without PrintErrors, exactly err+newline on the right stream with it. non-trivial: argv contains a junk/multi-byte token and at least one option token was processed; distinct by (declaration signature, argv)"
 	runProp(t, "C04", func(t *rapid.T) *ParseCase {
 		c := genParseCase(t, c04Decl, c04Argv)
+		c.Env = genEnv(t, c.D, 25)
 		c.ExecErr = []string{"", "help", "plain"}[weighted(t, "execErr", []int{6, 2, 2})]
 		c.CmdHandler = rapid.IntRange(0, 3).Draw(t, "cmdHandler") == 0
 		return c
